@@ -1051,6 +1051,10 @@ impl<'p> Evaluator<'_, 'p> {
     }
 }
 
+// Largest precision passed to `format!`. Exponential formatting needs
+// `precision + 1` digits to also fit in `u16`.
+const MAX_FMT_PREC: usize = (u16::MAX - 1) as usize;
+
 fn render_float_def(
     value: f64,
     prec: usize,
@@ -1063,7 +1067,11 @@ fn render_float_def(
     let value_abs = value.abs();
     let is_neg = value.is_sign_negative() && value != 0.0;
 
-    let mut digits_str = format!("{value_abs:.prec$}");
+    // `format!` only supports precisions that fit in `u16`. An `f64` has fewer
+    // than 1100 significant decimal digits, so every further digit is zero.
+    let fmt_prec = prec.min(MAX_FMT_PREC);
+    let mut digits_str = format!("{value_abs:.fmt_prec$}");
+    digits_str.extend(std::iter::repeat_n('0', prec - fmt_prec));
     if prec == 0 && ensure_pt {
         digits_str.push('.');
     } else if prec != 0 && trim_zeros {
@@ -1090,9 +1098,14 @@ fn render_float_exp(
     let value_abs = value.abs();
     let is_neg = value.is_sign_negative() && value != 0.0;
 
-    let digits_str = format!("{value_abs:.prec$e}");
+    // `format!` only supports precisions that fit in `u16`. An `f64` has fewer
+    // than 1100 significant decimal digits, so every further digit is zero.
+    let fmt_prec = prec.min(MAX_FMT_PREC);
+    let digits_str = format!("{value_abs:.fmt_prec$e}");
     let e_pos = digits_str.bytes().position(|chr| chr == b'e').unwrap();
-    let mut mant_str = &digits_str[..e_pos];
+    let mut mant_string = String::from(&digits_str[..e_pos]);
+    mant_string.extend(std::iter::repeat_n('0', prec - fmt_prec));
+    let mut mant_str = mant_string.as_str();
     if prec != 0 && trim_zeros {
         mant_str = mant_str.trim_end_matches('0');
         if !ensure_pt {
